@@ -39,6 +39,7 @@ class EncodeFail(Exception):
         self.path = path
         self.why = why
         self.kind = kind      # value | collision | eval
+        self.elem_start = None   # cursor where the failing element of a repeated field begins
 
 
 class PV:
@@ -763,6 +764,7 @@ class Encoder:
         self.fam = fam
         self.fr = ShadowFragments()
         self.tr = Trace()
+        self.elem_cursor = None
 
     def encode_decl(self, pv, path):
         if not isinstance(pv, PV):
@@ -819,11 +821,15 @@ class Encoder:
                 e.path.append((f["name"], declname, start))
                 raise e
             except Collision as c:
-                raise EncodeFail([(f["name"], declname, start)], "collision", "collision")
+                ef = EncodeFail([(f["name"], declname, start)], "collision", "collision")
+                ef.elem_start = self.elem_cursor if "rep" in f else None
+                raise ef
             except BitsTypeError as b:
                 raise EncodeFail([(b.args[0], declname, start)], "bits value is not an integer", "value")
             except Exception as e:
-                raise EncodeFail([(f["name"], declname, start)], "%s: %s" % (type(e).__name__, e), "value")
+                ef = EncodeFail([(f["name"], declname, start)], "%s: %s" % (type(e).__name__, e), "value")
+                ef.elem_start = self.elem_cursor if "rep" in f else None
+                raise ef
             self.tr.fields.append({"path": fpath, "cls": declname, "name": f["name"], "t": f["t"], "start": start,
                                    "end": fr.cursor})
             i += 1
@@ -838,6 +844,7 @@ class Encoder:
             aligned_to = f["rep"].get("aligned", conf.get("align", 1))
             for idx, x in enumerate(v):
                 fr.cursor += (aligned_to - (fr.cursor % aligned_to)) % aligned_to
+                self.elem_cursor = fr.cursor
                 self.encode_base(f, conf, vals, x, fpath + (idx,), declname)
             return
         if "opt" in f:
